@@ -42,7 +42,7 @@ SETLESS_FORM = Contract(
                                           f"forall({M}, lambda x: implies({NAME}.startswith(x), len(x) <= len(m))) and "
                                           f"result == {NAME}.replace(m + '.', '', 1)))"),
     ],
-    result_kind=STR, frame=[], props=["C09", "C16"],
+    result_kind=STR, frame=[], props=["C09", "C16", "C06"],
 )
 
 
@@ -212,4 +212,43 @@ SHOULD_PARSE = Contract(
         ("parse_unless_completed_by_an_unrestricted_worker", f"result == (not exists(self.shared_involved_workers, lambda pw: {DONE_BY}))"),
     ],
     result_kind=BOOL, frame=[], props=["C09"],
+)
+
+
+# ---------------------------------------------------------------- lazy expansion: when may one existing variant be reused? (C09)
+_sch = __import__("contracts.schema", fromlist=["SCHEMA"]).SCHEMA
+_sch["TestGraph"]["fields"].setdefault("restrs", __import__("pyvc.kinds", fromlist=["Map"]).Map(STR, STR))
+
+
+def unique_node_block(fn):
+    out, on = [], False
+    for s in fn.body:
+        text = ast.unparse(s)
+        if text.startswith("unique_new_node = len(self.restrs)"):
+            on = True
+        if on:
+            out.append(s)
+        if on and text.startswith("unique_new_node = test_node.params.get_boolean"):
+            break
+    return out
+
+
+ALL_RESTRICTED = ("(len(keys_of(self.restrs)) > 0 and forall(keys_of(self.restrs), lambda s: self.restrs[s].rstrip() != ''))")
+UNIQUE_NODE = Contract(
+    target=f"{GRAPH}::TestGraph.get_and_parse_nodes_from_flat_node_and_object",
+    name="TestGraph.get_and_parse_nodes_from_flat_node_and_object#unique_node", block=("unique_node", unique_node_block),
+    params={"self": Ref("TestGraph"), "test_node": Ref("TestNode")},
+    requires=["wf_map(self.restrs)"],
+    loops={0: {"invariants": ["unique_new_node == (len(keys_of(self.restrs)) > 0)",
+                              "forall(range(0, _i), lambda j: self.restrs[keys_of(self.restrs)[j]].rstrip() != '')"],
+               "kinds": {"suffix": STR, "unique_new_node": BOOL}}},
+    outputs={"unique_new_node": BOOL},
+    raises={"ValueError": None},
+    ensures=[
+        # a single already parsed variant stands for the flat test only if EVERY object the user restricts is pinned down
+        # (or the test says so itself); otherwise all variants have to be expanded
+        ("reuse_only_if_every_user_restriction_is_given", f"unique_new_node == test_node.params.get_boolean('unique_nodes_from_flat', {ALL_RESTRICTED})"),
+    ],
+    frame=[], props=["C09"],
+    assumes=["extracted block: the statements that decide whether a unique existing child may be reused for a flat node"],
 )
